@@ -52,3 +52,46 @@ Definition dest_decoded (raw : string) (d : dest_hdr) : bool :=
        | Some (HUrl u) => dest_eqb d (DestPath (u_path u))
        | Some (HAuth _ u) => dest_eqb d (DestPath (u_path u)) || dest_eqb d DestBad
        end.
+
+(** * What the server announces for a backend's entity tag (server.go HeadGet, Put,
+      propFindFile: [internal.ETag(fi.ETag).String()] when the tag is not empty) *)
+Definition announce (is_print_hi : N -> bool) (t : string) : option string :=
+  if String.eqb t "" then None else Some (etag_marshal is_print_hi t).
+
+(** agreement of the four observed announcements with the model *)
+Definition tags_agree (is_print_hi : N -> bool) (t : string) (put get head pf : option string) : bool :=
+  let m := announce is_print_hi t in
+  ostr_eqb put m && ostr_eqb get m && ostr_eqb head m && ostr_eqb pf m.
+
+(** the property, on observations: one and the same text in the four places, it
+    decodes to the backend's tag, and ConditionalMatch.MatchETag accepts it back *)
+Definition tags_spec_ok (t : string) (put get head pf : option string) (back : option bool) : bool :=
+  if String.eqb t "" then
+    match put, get, head, pf with None, None, None, None => true | _, _, _, _ => false end
+  else
+    match get with
+    | None => false
+    | Some s =>
+      ostr_eqb put get && ostr_eqb head get && ostr_eqb pf get &&
+      ostr_eqb (decode_cond s) (Some t) &&
+      match back with Some true => true | _ => false end
+    end.
+
+(** ConditionalMatch(v).MatchETag(tag) of webdav.go, from the bytes of [v] *)
+Definition match_back (v tag : string) : option bool :=
+  match match_etag v (decode_cond v) tag with
+  | GOk b => Some b
+  | GErr _ => None
+  end.
+
+(** caldav/carddav backend.Put: the two header values become the options, unaltered
+    (an absent header is the empty ConditionalMatch) *)
+Definition cdav_options (if_match if_none_match : option string) : string * string :=
+  (match if_match with Some v => v | None => ""%string end,
+   match if_none_match with Some v => v | None => ""%string end).
+
+Definition cdav_agree (im inm : option string) (got : option (string * string)) : bool :=
+  match got with
+  | Some (a, b) => let '(x, y) := cdav_options im inm in String.eqb a x && String.eqb b y
+  | None => false
+  end.
